@@ -475,9 +475,13 @@ def _replay_c08(case, model):
         if k == "fl": return "WFlush"
         if k == "he": return "(WHttpError %s %s)" % (_cstr(o[1]), _cz(o[2]))
         if k == "rd": return "(WRedirect %s %s)" % (_cstr(o[1]), _cz(o[2]))
-        return "WObs"
+        if k == "cp": return "(WWrite %s)" % _cstr(o[1])
+        if k == "ab": return "(WSetStatus %s)" % _cz(o[1])
+        if k == "ob": return "WObs"
+        raise ValueError(k)
     hs = c[2]
-    ops = [wop(o) for h in hs for o in h[0]] + [wop(o) for h in reversed(hs) for o in h[1]]
+    keep = lambda o: not (o[0] == "cp" and o[1] == "'")      # io.Copy of no data makes no call at all
+    ops = [wop(o) for h in hs for o in h[0] if keep(o)] + [wop(o) for h in reversed(hs) for o in h[1] if keep(o)]
     def wev(e):
         if e[0] == "wh": return "(WH %s)" % _cz(e[1])
         if e[0] == "w": return "(W %s)" % _cstr(e[1])
